@@ -430,6 +430,11 @@ class List(list, base.Symbolic, pg_typing.CustomTyping):
       # Insertion or append: the list shall not exceed its max size.
       self._check_size(self._num_items() + 1)
 
+    # A value that is a child of this list is stored at ANOTHER position (the
+    # case of its own position returned above); its path may be stale in the
+    # middle of a batch, so `_relocate_if_symbolic` cannot tell: always copy.
+    if isinstance(value, base.Symbolic) and value.sym_parent is self:
+      value = value.clone()
     new_value = self._formalized_value(index, value)
     if index < len(self):
       if should_insert:
